@@ -458,6 +458,9 @@ func (s Svc) AllArgs() []Arg {
 }
 
 func (s Svc) HasTag(t string) bool {
+	if s.Todo {
+		return false // see Tagged
+	}
 	for _, x := range s.Tags {
 		if x.Name == t {
 			return true
@@ -474,6 +477,11 @@ func (c *Cfg) Tagged(t string) []string {
 	}
 	var es []e
 	for _, s := range c.Services {
+		if s.Todo {
+			// a placeholder is a name (and a declared scope): its sketched constructor, arguments, fields,
+			// calls and tags are not part of the container until the service is defined or overridden
+			continue
+		}
 		for _, x := range s.Tags {
 			if x.Name == t {
 				es = append(es, e{s.Name, x.Prio})
